@@ -54,6 +54,16 @@ def r37_status_changes_logged(ctx):
         ctx.check(ok and named, R, f.node, f, "Candidate.%s logs a '%s' action naming the candidate on every path after the status store" % (name, tag),
                   "every path from `self.state = ...` to the end passes self.E.logAction('%s', ... self.name)" % tag,
                   "Candidate.%s can change the status without logging a '%s' action naming the candidate" % (name, tag))
+    # the tags 'elect' and 'defeat' are emitted only by Candidate.elect / Candidate.defeat, so every listed election or
+    # exclusion is a status change made at that step
+    for f in ctx.repo.funcs.values():
+        for c in f.own_nodes():
+            if isinstance(c, ast.Call) and isinstance(c.func, ast.Attribute) and c.func.attr in ('logAction', 'action') and c.args \
+                    and const_str(c.args[0]) in ('elect', 'defeat'):
+                ok = f.owner_class is cand and f.name == const_str(c.args[0])
+                ctx.check(ok, R, c, f, "an 'elect'/'defeat' action is recorded only by the method that makes that status change",
+                          'inside Candidate.%s' % f.name, "'%s' action logged from %s: the record lists an election/exclusion that is not "
+                          "the status change made at that step" % (const_str(c.args[0]), f.qualname), nontrivial=False)
     # unpend logs 'unpend' when given a message (informational shape)
     # Election.logAction forwards to the record unconditionally
     la = ctx.repo.func('droop.election.Election.logAction')
@@ -499,9 +509,35 @@ def _appended_counts(f, listvar, branch_nodes):
     return n
 
 
+def _one_output_per_action(ctx, R, f, outvar, skip_ok=None):
+    """in the loop `for A in self['actions']` of a renderer every path through the body appends to the output list"""
+    cfg = cfg_of(f)
+    loops = [n for n in f.own_nodes() if isinstance(n, ast.For) and unparse(n.iter) == "self['actions']"]
+    need(len(loops) == 1, "R42: loop over self['actions'] not found in %s" % f.qualname)
+    L = loops[0]
+    head = cfg.of_stmt[L]
+    outs = set()
+    for x in cfg.nodes_in(L):
+        for c in calls_at(x):
+            if isinstance(c.func, ast.Attribute) and c.func.attr in ('append', 'extend') and isinstance(c.func.value, ast.Name) \
+                    and c.func.value.id == outvar:
+                outs.add(x)
+            if skip_ok and skip_ok(c, x):
+                outs.add(x)
+    body_entry = [t for t, lab in head.succ if lab is True]
+    ok = bool(outs) and head not in cfg.reach(body_entry, avoid=outs, include_start=True)
+    ctx.check(ok, R, L, f, 'every recorded action produces output in %s (rows/lines correspond one to one to the record)' % f.name,
+              'every path through the loop body appends to `%s`' % outvar,
+              'an action can be skipped by %s: the rendering no longer lines up with the record, the JSON and the other renderings' % f.name)
+
+
 def r42_dump_arity(ctx):
     R = 'R42'
     repo = ctx.repo
+    _one_output_per_action(ctx, R, repo.func(RECORD + '.dump'), 'dumps')
+    _one_output_per_action(ctx, R, repo.func(RECORD + '.report'), 'report',
+                           skip_ok=lambda c, x: ctx.canon(c.func, repo.func(RECORD + '.report')) == 'E.rule.report' and len(c.args) >= 3
+                           and const_str(c.args[2]) == 'action' and x.kind == 'test')
     # hooks: header branch vs data branch for (cid is None) and (cid is not None)
     seen = set()
     for ri in rules(ctx):
